@@ -401,6 +401,13 @@ type c20WithUnexported struct {
 	R      []string `json:"r" api:"rel,t"`
 }
 
+type c20ID string
+
+type c20WithNamedID struct {
+	ID c20ID  `json:"id" api:"t"`
+	A  string `json:"a" api:"attr"`
+}
+
 type c20WithEmbedded struct {
 	ID string `json:"id" api:"t"`
 	c20Embedded
@@ -413,6 +420,7 @@ func TestC20Regress(t *testing.T) {
 		"named-field-type": c20WithNamed{},
 		"unexported-field": c20WithUnexported{},
 		"embedded-struct":  c20WithEmbedded{},
+		"named-id-type":    c20WithNamedID{},
 	} {
 		t.Run(name, func(t *testing.T) {
 			cerr := jsonapi.Check(v)
@@ -431,6 +439,21 @@ func TestC20Regress(t *testing.T) {
 
 			if cerr == nil && (berr != nil || wp != nil) {
 				t.Fatalf("C20 violated: Check accepts %T but BuildType says %v and use panics with %v", v, berr, wp)
+			}
+
+			if cerr == nil {
+				// the built type carries the ID tag's name and the ID can be set and read
+				typ, _ := jsonapi.BuildType(v)
+				w := jsonapi.Wrap(reflect.New(reflect.TypeOf(v)).Interface())
+				w.Set("id", "some-id")
+
+				if typ.Name != "t" || w.GetType().Name != "t" || w.Get("id") != "some-id" {
+					t.Fatalf("C20 violated: Check accepts %T but the built type is named %q, the wrapper's %q, and Get(id) = %v after Set(id, some-id)", v, typ.Name, w.GetType().Name, w.Get("id"))
+				}
+
+				if cp := w.Copy(); cp.Get("id") != "some-id" || cp.GetType().Name != "t" {
+					t.Fatalf("C20 violated: Copy of %T lost the ID or the type name", v)
+				}
 			}
 
 			if cerr != nil && (berr == nil || wp == nil) {
